@@ -13,7 +13,7 @@
    trusted, not modelled; real payloads are inspected with pickletools on every run. *)
 From Coq Require Import List NArith ZArith Bool Arith String.
 Import ListNotations.
-From ZI Require Import Lib.Str Lib.Util Model.Pickle Proofs.Pickle.
+From ZI Require Import Lib.Str Lib.Util Model.Pickle Proofs.Pickle Gen.ReduceKernel Proofs.PickleGen.
 Local Open Scope nat_scope.
 
 (* an interface unpickles to the identical object, in every state *)
@@ -217,6 +217,68 @@ Theorem C13_roundtrip_eq_hash : forall fuel w ops,
        forall hk hid, py_hash w hk hid y = py_hash w hk hid (OProv p)).
 Proof. exact roundtrip_eq_hash. Qed.
 Print Assumptions C13_roundtrip_eq_hash.
+
+(* ------------------------------------------------------------------ the model is the source text *)
+(* Gen/ReduceKernel.v is re-derived from interface.py / declarations.py by the fail-closed translator
+   harness/translate/reduce.py on every run; the functions the theorems above speak about are
+   proved equal to what the source says now. *)
+
+(* InterfaceClass.__reduce__ *)
+Theorem C13_generated_iface_reduce_eq_model : forall w i, gen_iface_reduce w i = reduce_iface w i.
+Proof. exact gen_iface_reduce_eq. Qed.
+Print Assumptions C13_generated_iface_reduce_eq_model.
+
+(* _ImmutableDeclaration.__reduce__ *)
+Theorem C13_generated_empty_reduce_eq_model : gen_empty_reduce = reduce_empty.
+Proof. exact gen_empty_reduce_eq. Qed.
+Print Assumptions C13_generated_empty_reduce_eq_model.
+
+(* Implements.__reduce__ with the _implements_cls fallback *)
+Theorem C13_generated_implements_reduce_eq_model : forall w r, gen_impl_reduce w r = reduce_impl w r.
+Proof. exact gen_impl_reduce_eq. Qed.
+Print Assumptions C13_generated_implements_reduce_eq_model.
+
+(* Provides.__init__ (the stored argument tuple) + Provides.__reduce__ *)
+Theorem C13_generated_provides_reduce_eq_model : forall w pr, gen_prov_reduce w pr = reduce_prov w pr.
+Proof. exact gen_prov_reduce_eq. Qed.
+Print Assumptions C13_generated_provides_reduce_eq_model.
+
+(* ClassProvides.__init__ + ClassProvides.__reduce__ *)
+Theorem C13_generated_classprovides_reduce_eq_model : forall w qr, gen_cprov_reduce w qr = reduce_cprov w qr.
+Proof. exact gen_cprov_reduce_eq. Qed.
+Print Assumptions C13_generated_classprovides_reduce_eq_model.
+
+(* implementedBy: the specification created for a class, including that `spec._implements_cls = cls`
+   is executed for every class (it stands before the try: that stores the spec in the class) *)
+Theorem C13_generated_new_spec_eq_model : forall w c, gen_default_impl w c = default_impl w c.
+Proof. exact gen_default_impl_eq. Qed.
+Print Assumptions C13_generated_new_spec_eq_model.
+
+(* the Provides factory over InstanceDeclarations *)
+Theorem C13_generated_factory_eq_model : forall fuel w st c is,
+  gen_provides_factory fuel w st c is = provides_factory fuel w st c is.
+Proof. exact gen_provides_factory_eq. Qed.
+Print Assumptions C13_generated_factory_eq_model.
+
+(* Provides.changed: the model's notify deletes exactly the entries the two guards of the source
+   select among the declarations whose class depends on the changed one *)
+Theorem C13_generated_changed_eq_model : forall fuel w st c,
+  notify fuel w st c =
+  mkState (st_impl st) (st_cprov_of st) (st_cprovs st) (st_provs st)
+          (filter (fun kp : ckey * nat =>
+                     negb (reaches fuel w st (fst (fst kp)) c && gen_prov_changed true true))
+                  (st_cache st))
+          (st_insts st).
+Proof. exact gen_prov_changed_eq. Qed.
+Print Assumptions C13_generated_changed_eq_model.
+
+(* directlyProvides: both constructors receive the list flattened by _normalizeargs, never the raw
+   arguments (which may be Declaration objects that would be pickled by value) *)
+Theorem C13_generated_directlyProvides_normalises : forall (A : Type) (normalizeargs : A -> list nat) (raw : A),
+  gen_dp_class_args normalizeargs raw = inr (normalizeargs raw) /\
+  gen_dp_instance_args normalizeargs raw = inr (normalizeargs raw).
+Proof. exact gen_dp_args_normalised. Qed.
+Print Assumptions C13_generated_directlyProvides_normalises.
 
 (* ------------------------------------------------------------------ non-vacuity *)
 
